@@ -231,7 +231,7 @@ func isErrorType(t types.Type) bool {
 // RuleX1: switches whose fall-back arm is an internal failure must list every
 // declared constant of the switched type.
 func RuleX1(c *Ctx) {
-	sc := c.Run.Begin("X1", "a switch over an enumerated type whose fall-back arm panics, or fails inside a Marshal*/String method, or is the lexeme dispatch, lists every declared constant; begin/end/single event predicates partition the event constants; the directive name table has one entry per directive constant", 2)
+	sc := c.Run.Begin("X1", "a switch over an enumerated type whose fall-back arm panics, or fails inside a Marshal*/String method, or is the lexeme dispatch, lists every declared constant; begin/end/single event predicates partition the event constants; the directive name table has one entry per directive constant", 1)
 	defer sc.End()
 	dispatchFn, _, _ := c.lexemeDispatch()
 	c.P.Funcs(func(pk *pkgT, fd *ast.FuncDecl) {
@@ -377,7 +377,7 @@ func isMarshalLike(fd *ast.FuncDecl) bool {
 
 // RuleP1: every explicit panic is discharged.
 func RuleP1(c *Ctx) {
-	sc := c.Run.Begin("P1", "every explicit panic() in the library is unreachable: exhaustive switch (X1), empty-stack panics (S1a/S1b on the automaton), guarded queue shift, re-panic inside a recover handler, adoptError fed only *JApiError values, panic(err) under a recover barrier (P2)", 2)
+	sc := c.Run.Begin("P1", "every explicit panic() in the library is unreachable: exhaustive switch (X1), empty-stack panics (S1a/S1b on the automaton), guarded queue shift, re-panic inside a recover handler, adoptError fed only *JApiError values, panic(err) under a recover barrier (P2)", 1)
 	defer sc.End()
 	m, pds, merr := c.Machine()
 	counts := map[string]int{}
@@ -778,7 +778,7 @@ func (c *Ctx) underRecoverBarrier(f *types.Func) (bool, string) {
 
 // RuleP2: calls into functions the trusted base documents as panicking sit under a barrier.
 func RuleP2(c *Ctx) {
-	sc := c.Run.Begin("P2", "every call to reader.Read (documented to panic) is inside a function whose deferred recover() sets its error result; the three recover barriers convert only error values and re-panic the rest", 2)
+	sc := c.Run.Begin("P2", "every call to reader.Read (documented to panic) is inside a function whose deferred recover() sets its error result; the three recover barriers convert only error values and re-panic the rest", 1)
 	defer sc.End()
 	n := 0
 	c.eachCall(func(cs callSite) {
